@@ -12,6 +12,7 @@ Forward symbolic execution of the real AST of one function at a time.
 Obligations are (path condition, goal) pairs decided by z3 (cvc5 fallback).
 """
 import ast
+import os
 import z3
 from . import sym
 from .sym import (SSeq, Obj, Opt, Opaque, TokList, Single, Many, EngineError,
@@ -293,7 +294,9 @@ class Exec:
         if goal is False:
             goal = z3.BoolVal(False)
         full = '%s:%s' % (self.cur_func, name)
-        parts = _split_goal(goal) if ':body-ensures:' in name else [goal]
+        parts = _split_goal(goal) if (':body-ensures:' in name or
+                                      os.environ.get('PYVC_SPLIT')) \
+            else [goal]
         if len(parts) == 1:
             self.obligations.append(Obligation(full, st.pc, goal, 'proof',
                                                line, self.cur_func, note))
@@ -386,6 +389,20 @@ class Exec:
     def st_Expr(self, s, st, fi, c):
         if isinstance(s.value, ast.Constant):
             yield st, None
+            return
+        if isinstance(s.value, ast.Yield):
+            # generator body executed straight through: the yielded value
+            # is evaluated (safety obligations) and, when the contract has a
+            # `yields` spec, checked; resumption continues with the next
+            # statement
+            if s.value.value is None:
+                yield st, None
+                return
+            for st1, v in self.ev(s.value.value, st, fi):
+                ysp = getattr(c, 'yields', None) if c is not None else None
+                if ysp is not None:
+                    ysp.check(self, st1, v, 'yield@%d' % s.lineno, s.lineno)
+                yield st1, None
             return
         for st1, v in self.ev(s.value, st, fi):
             yield st1, None
@@ -599,9 +616,18 @@ class Exec:
                     else:
                         results.append((st2, sig))
                 if catches_all:
-                    self.obligations[nobl:] = [
-                        o for o in self.obligations[nobl:]
-                        if ':safe:' not in o.name]
+                    kept = [o for o in self.obligations[nobl:]
+                            if ':safe:' not in o.name]
+                    dropped = len(self.obligations) - nobl - len(kept)
+                    self.obligations[nobl:] = kept
+                    if dropped:
+                        # discharged by the handler: recorded so that the
+                        # evidence shows it (and the function is not
+                        # counted as generating nothing)
+                        self.prove(st1, 'try@%d:%d-run-time-failure(s)-of-'
+                                   'line-%d-caught-by-catch-all-handler' % (
+                                       s.lineno, dropped, stmt.lineno), True,
+                                   stmt.lineno)
             cur = nxt
         results += [(s1, None) for s1 in cur]
         for e in handler_entries:
@@ -780,8 +806,15 @@ class Exec:
                     self.check_invs(spec, b2, tag + ':inv-preserved',
                                     s.lineno)
                     for lab, fn in spec.body_post:
+                        try:
+                            goal = fn(snap, Env(b2))
+                        except KeyError as e:
+                            raise Unsupported(
+                                'loop body contract %s refers to variable '
+                                '%s, which the code does not define' % (
+                                    lab, e))
                         self.prove(b2, '%s:body-ensures:%s@%s' % (
-                            tag, lab, _tr(b2)), fn(snap, Env(b2)), s.lineno)
+                            tag, lab, _tr(b2)), goal, s.lineno)
                     if v0 is not None:
                         v1 = spec.variant(Env(b2))
                         self.prove(b2, tag + ':variant-decreases',
@@ -791,7 +824,15 @@ class Exec:
     def check_invs(self, spec, st, label, line):
         E = Env(st)
         for name, fn in spec.invs:
-            self.prove(st, '%s:%s@%s' % (label, name, _tr(st)), fn(E), line)
+            try:
+                goal = fn(E)
+            except KeyError as e:
+                # the code no longer has a variable the invariant speaks
+                # about: the contract does not fit the code (undecided)
+                raise Unsupported('loop invariant %s refers to variable %s, '
+                                  'which the code does not define here'
+                                  % (name, e))
+            self.prove(st, '%s:%s@%s' % (label, name, _tr(st)), goal, line)
         for name, sp in spec.shapes.items():
             try:
                 v = self.lookup_path(st, name)
@@ -989,6 +1030,11 @@ class Exec:
             o = o.obj
         if not isinstance(o, Obj):
             raise Unsupported('attribute store on %r at %d' % (o, line))
+        if o.meta.get('view') is not None:
+            # a merged view (ite of several heap objects) is read-only: a
+            # store through it would be lost
+            raise Unsupported('attribute store through a merged view at %d'
+                              % line)
         hook = self.contracts.store_hook
         if hook:
             hook(self, st, o, attr, v, line)
@@ -1069,6 +1115,18 @@ class Exec:
                         k -= 1
                     else:
                         break
+        # the index term is syntactically the offset of an explicit element
+        # (x[i] = v ... x[i]): that element itself
+        if not isinstance(i, int):
+            off = 0
+            want = z3.simplify(zint(i)).sexpr()
+            for sg in segs:
+                if isinstance(sg, Single):
+                    if z3.simplify(zint(off)).sexpr() == want:
+                        return sg.obj
+                    off = off + 1
+                else:
+                    off = off + sg.ln
         # general: element described by a case split over the segments,
         # merged into one generic value through `merge_values`.  Reads are
         # memoised per index term until the list is written.
@@ -2172,6 +2230,12 @@ def merge_pair(ex, c, a, b, st):
         return r
     if isinstance(a, SSeq) and isinstance(b, SSeq) and a.kind == b.kind:
         return SSeq(z3.If(c, a.arr, b.arr), Ite(c, a.ln, b.ln), a.kind)
+    if isinstance(a, tuple) and isinstance(b, tuple) and len(a) == len(b) \
+            and not (a and isinstance(a[0], str) and a[0].startswith('$')):
+        parts = [merge_pair(ex, c, x, y, st) for x, y in zip(a, b)]
+        if any(p is NotImplemented for p in parts):
+            return NotImplemented
+        return tuple(parts)
     if isinstance(a, (Obj, Opt)) or isinstance(b, (Obj, Opt)) or a is None \
             or b is None:
         if (a is None or isinstance(a, (Obj, Opt))) and \
